@@ -235,6 +235,7 @@ func checkC06(c *km.Ctx) {
 	}
 
 	checkMasks(c, s, checkAuth)
+	checkWebUIMask(c, s)
 	checkCSRF(c, s, checkAuth)
 	checkKeymasterSigned(c, s, "R-C06-4")
 	checkAuthBits(c, s, checkAuth, "R-C06-5")
@@ -362,6 +363,75 @@ func checkMasks(c *km.Ctx, s *km.Sem, checkAuth *ssa.Function) {
 	}
 }
 
+// checkWebUIMask: the symbolic WEBUI mask (getRequiredWebUIAuthLevel) is built only from factor bits; a
+// certificate-kind bit in it would open checkAuth's certificate gate on every web endpoint, which does not look
+// at the credential kind afterwards.
+func checkWebUIMask(c *km.Ctx, s *km.Sem) {
+	fn := c.MustFunc("R-C06-2", "cmd/keymasterd", "(*RuntimeState).getRequiredWebUIAuthLevel")
+	if fn == nil {
+		return
+	}
+	consts := authTypeConsts(c)
+	byVal := map[int64]string{}
+	for n, v := range consts {
+		if n != "AuthTypeAny" && n != "AuthTypeNone" {
+			byVal[v] = n
+		}
+	}
+	forbidden := consts["AuthTypeIPCertificate"] | consts["AuthTypeKeymasterX509"]
+	var bits []string
+	ok := true
+	seen := map[ssa.Value]bool{}
+	var walk func(v ssa.Value)
+	walk = func(v ssa.Value) {
+		v = km.Unwrap(v)
+		if seen[v] {
+			return
+		}
+		seen[v] = true
+		switch x := v.(type) {
+		case *ssa.Const:
+			k, isK := km.ConstInt(x)
+			if !isK || k&forbidden != 0 || k < 0 {
+				ok = false
+			}
+			if k != 0 {
+				if n, has := byVal[k]; has {
+					bits = appendUniq(bits, n)
+				} else {
+					bits = appendUniq(bits, sprintf("%#x", k))
+				}
+			}
+		case *ssa.Phi:
+			for _, e := range x.Edges {
+				walk(e)
+			}
+		case *ssa.BinOp:
+			if x.Op != token.OR {
+				ok = false
+				bits = appendUniq(bits, "expr:"+km.ValStr(x))
+				return
+			}
+			walk(x.X)
+			walk(x.Y)
+		default:
+			ok = false
+			bits = appendUniq(bits, "expr:"+km.ValStr(v))
+		}
+	}
+	n := 0
+	for _, rc := range s.RetCases(fn) {
+		n++
+		walk(rc.Results[0])
+	}
+	sort.Strings(bits)
+	if n == 0 {
+		c.R.AnchorLost("R-C06-2", "returns of getRequiredWebUIAuthLevel")
+		return
+	}
+	c.R.Add("R-C06-2", km.FuncName(fn), "content of the web-UI admission mask", c.P.Pos(fn.Pos()), "an OR of factor-bit constants only: neither AuthTypeIPCertificate nor AuthTypeKeymasterX509 (nor any computed value) can enter the mask the web endpoints pass to checkAuth", strings.Join(bits, "|"), ok)
+}
+
 func checkCSRF(c *km.Ctx, s *km.Sem, checkAuth *ssa.Function) {
 	isReqField := func(v ssa.Value, field string) bool {
 		x, f, ok := km.FieldOfLoad(v)
@@ -476,7 +546,20 @@ func checkKeymasterSigned(c *km.Ctx, s *km.Sem, rule string) {
 			}
 		}
 	})
+	notDenied := km.Prim{Name: "leaf key not in the deny list", Direct: func(f km.Fact) bool {
+		list, elem, ok := nonMembership(f)
+		if !ok || !isLeafFingerprint(elem) {
+			return false
+		}
+		_, path, ok2 := km.FieldPath(list)
+		return ok2 && strings.HasSuffix(path, "DenyTrustData.KeyDenyFPsshSha256")
+	}}
 	for _, ret := range succ {
+		// library form: the return is reached only with "fingerprint not in list" established
+		if st := c.F.At(ret); len(st) > 0 && st.All(func(k km.Conj) bool { return s.Holds(k, notDenied) }) {
+			c.R.Add(rule, km.FuncName(fn), "deny list before success return", posOf(c, ret), "leaf key fingerprint compared with every KeyDenyFPsshSha256 entry; match => refusal", "membership test of the leaf key fingerprint is false on every path to the return", true)
+			continue
+		}
 		ok := denyLoadBlock != nil && denyCmp != nil && denyLoadBlock.Dominates(ret.Block())
 		found := "deny list consulted before admission; a match cannot reach the success return"
 		if ok {
